@@ -120,6 +120,7 @@ struct InCfg
 	uint32_t binChunk = 256;
 	uint32_t encChunk = 256;
 	bool skipFastSeek = false;
+	uint32_t prefix = 0;              // the document starts at this offset of the stream (a header or another document precedes it); the stream is positioned there
 	bool readOnlyMem = false;         // memory entry through a std::string_view of a read-only mapping followed by an inaccessible page
 
 	std::string str() const
@@ -131,6 +132,7 @@ struct InCfg
 			for (auto d : delivery) s += std::to_string(d) + ",";
 			s += "] binChunk=" + std::to_string(binChunk) + " encChunk=" + std::to_string(encChunk);
 			if (skipFastSeek) s += " skipFastSeek";
+			if (prefix) s += " startsAt=" + std::to_string(prefix);
 			if (seekBeyondFails) s += " seekBeyondFails";
 		}
 		return s;
@@ -155,6 +157,7 @@ inline InCfg DrawStreamCfg(Source& s, Lane l = sim::L_IO)
 	c.binChunk = DrawBinChunk(s, l);
 	c.encChunk = DrawEncChunk(s, l);
 	c.skipFastSeek = c.seekable && s.chance(l, 1, 8);
+	if (s.chance(l, 1, 4)) { static const uint32_t starts[] = { 1, 3, 16, 255, 256, 257, 300, 1000 }; c.prefix = s.pick(l, starts); }
 	return c;
 }
 
@@ -231,6 +234,29 @@ struct LoadInfo
 	bool streamFail = false;
 };
 
+// A stream whose document starts at offset c.prefix: builds the padded content, shifts the fault positions, positions the stream
+struct PaddedInput
+{
+	std::string padded;
+	const std::string& Data(const std::string& bytes, const InCfg& c, sim::InFaults& faults)
+	{
+		if (!c.prefix) return bytes;
+		padded.reserve(c.prefix + bytes.size());
+		for (uint32_t i = 0; i < c.prefix; ++i) padded.push_back("#PAD"[i % 4]);
+		padded += bytes;
+		if (faults.eofAt != SIZE_MAX) faults.eofAt += c.prefix;
+		if (faults.failAt != SIZE_MAX) faults.failAt += c.prefix;
+		return padded;
+	}
+	static void Position(std::istream& is, const InCfg& c)
+	{
+		if (!c.prefix) return;
+		// (the program that consumed the header; no look-ahead beyond it, so a fault placed at the first byte of the document stays there)
+		if (c.seekable) is.seekg(static_cast<std::streamoff>(c.prefix));
+		else for (uint32_t i = 0; i < c.prefix; ++i) is.rdbuf()->sbumpc();
+	}
+};
+
 // Loads `skel` from `bytes` through the configured entry. `eofAt`/`failAt` are fault positions (SIZE_MAX = none).
 inline CallResult LoadDynWith(ArchiveOps& ops, DynNode& skel, const std::string& bytes, const SerializationOptions& o, const InCfg& c,
 	sim::InFaults faults = {}, bool throwMode = false, LoadInfo* info = nullptr)
@@ -260,9 +286,12 @@ inline CallResult LoadDynWith(ArchiveOps& ops, DynNode& skel, const std::string&
 	{
 		const uint64_t seekFailBefore = sim::ev_kind_count(sim::EV_R_SEEK_FAIL);
 		const uint64_t underBefore = sim::ev_kind_count(sim::EV_R_UNDERFLOW);
-		sim::SimIStreamBuf sb(bytes, c.seekable, c.delivery, faults);
+		PaddedInput pad;
+		const std::string& content = pad.Data(bytes, c, faults);
+		sim::SimIStreamBuf sb(content, c.seekable, c.delivery, faults);
 		sb.SetSeekBeyondFails(c.seekBeyondFails);
 		std::istream is(&sb);
+		try { PaddedInput::Position(is, c); } catch (...) {}
 		if (throwMode) is.exceptions(std::ios::badbit);
 		r = Guarded([&] { FailWindow fw; ops.LoadDyn(skel, o, IoIn{ nullptr, &is }); });
 		if (info)
